@@ -757,3 +757,143 @@ Proof.
   - rewrite <- Hsrc. apply (in_map fst) in Hin. exact Hin.
   - rewrite Hsrc. exact Hnd.
 Qed.
+
+(* ---------------------------------------------------------------- any arrival order: what is produced is right *)
+(* Without any assumption on timestamps the buffers are still suffixes of the arrivals of their (source, key):
+   the cap and the GC only ever drop a prefix.  Hence an output, when produced, is the specified one; out-of-order
+   histories can only lose outputs. *)
+Definition Inv2 (c : cfg) (past : list arrival) (b : list (bkey * list jev)) : Prop :=
+  forall s k evs, buf_get (s, k) b = Some evs -> exists pre, arrivals_of c s k past = pre ++ evs.
+
+Lemma Inv2_gc_one : forall c past cutoff b s k, Inv2 c past b -> Inv2 c past (gc_one cutoff s k b).
+Proof.
+  intros c past cutoff b s k HI. unfold gc_one.
+  destruct (buf_get (s, k) b) as [evs|] eqn:Eg; [| exact HI].
+  destruct (HI s k evs Eg) as [pre Hpre].
+  set (idx := partition_point (fun e => jts e <? cutoff) evs).
+  destruct (skipn idx evs) as [|e1 rest] eqn:Esk.
+  - intros s' k' evs' Hg. destruct (bkey_eqb (s', k') (s, k)) eqn:E.
+    + apply bkey_eqb_eq in E. inv E. rewrite get_remove_same in Hg. discriminate.
+    + rewrite get_remove_other in Hg by exact E. apply HI. exact Hg.
+  - intros s' k' evs' Hg. destruct (bkey_eqb (s', k') (s, k)) eqn:E.
+    + apply bkey_eqb_eq in E. inv E. rewrite get_set_same in Hg. inv Hg.
+      exists (pre ++ firstn idx evs). rewrite Hpre, <- app_assoc, <- Esk, firstn_skipn. reflexivity.
+    + rewrite get_set_other in Hg by exact E. apply HI. exact Hg.
+Qed.
+
+Lemma Inv2_gc_loop : forall c past now cutoff q b, Inv2 c past b -> Inv2 c past (snd (gc_loop now cutoff q b)).
+Proof.
+  intros c past now cutoff q. induction q as [|[[ex s] k] q IH]; intros b HI; cbn [gc_loop]; [exact HI|].
+  destruct (now <? ex); [exact HI|]. apply IH. apply Inv2_gc_one. exact HI.
+Qed.
+
+Lemma Inv2_cleanup : forall c past st t, Inv2 c past (bufs st) -> Inv2 c past (bufs (cleanup_expired c st t)).
+Proof.
+  intros c past st t HI. unfold cleanup_expired.
+  destruct (match last_gc st with Some g => t - g <? gc_interval c | None => false end); [exact HI|].
+  pose proof (Inv2_gc_loop c past t (t - window c) (queue st) (bufs st) HI) as H.
+  destruct (gc_loop t (t - window c) (queue st) (bufs st)) as [q b]. exact H.
+Qed.
+
+Lemma Inv2_push : forall c past b s e k evs',
+    key_of c (s, e) = Some k ->
+    (exists d, match buf_get (s, k) b with Some l => l | None => [] end = d ++ evs') ->
+    Inv2 c past b -> Inv2 c (past ++ [(s, e)]) (buf_set (s, k) (evs' ++ [e]) b).
+Proof.
+  intros c past b s e k evs' Hk [d Hd] HI s' k' l Hg.
+  rewrite arrivals_app.
+  destruct (bkey_eqb (s', k') (s, k)) eqn:E.
+  - apply bkey_eqb_eq in E. inv E. rewrite get_set_same in Hg. inv Hg.
+    assert (Hm : arrivals_of c s k [(s, e)] = [e]).
+    { unfold arrivals_of, matches, has_key. cbn. rewrite Hk, !N.eqb_refl. reflexivity. }
+    rewrite Hm.
+    destruct (buf_get (s, k) b) as [l0|] eqn:Eg.
+    + destruct (HI s k l0 Eg) as [pre Hpre]. exists (pre ++ d). rewrite Hpre, Hd, !app_assoc. reflexivity.
+    + destruct d; [|discriminate]. cbn in Hd. subst evs'. exists (arrivals_of c s k past). reflexivity.
+  - rewrite get_set_other in Hg by exact E.
+    assert (Hm : arrivals_of c s' k' [(s, e)] = []).
+    { unfold arrivals_of, matches, has_key. cbn. rewrite Hk.
+      destruct (N.eqb s s') eqn:E1; cbn; auto. destruct (N.eqb k' k) eqn:E2; cbn; auto.
+      apply N.eqb_eq in E1, E2. subst. rewrite bkey_eqb_refl in E. discriminate. }
+    rewrite Hm, app_nil_r. apply HI. exact Hg.
+Qed.
+
+Lemma find_app_some : forall {A} (q : A -> bool) l1 l2 x, find q l1 = Some x -> find q (l1 ++ l2) = Some x.
+Proof. induction l1 as [|a l1 IH]; cbn; intros l2 x H; [discriminate|]. destruct (q a); auto. Qed.
+
+Lemma correlate_sound : forall c past t b k srcs ch,
+    Inv2 c past b ->
+    correlate_sources c b k t srcs = Some ch ->
+    all_some (map (fun s => option_map (pair s) (last_match c past s k t)) srcs) = Some ch.
+Proof.
+  intros c past t b k srcs. induction srcs as [|s srcs IH]; intros ch HI H; cbn [correlate_sources map all_some] in *.
+  - exact H.
+  - destruct (buf_get (s, k) b) as [evs|] eqn:Eg; [| discriminate].
+    destruct (rfind_window c t evs) as [e|] eqn:Er; [| discriminate].
+    destruct (correlate_sources c b k t srcs) as [l|] eqn:Ec; [| discriminate]. inv H.
+    destruct (HI s k evs Eg) as [pre Hpre].
+    rewrite last_match_arrivals, Hpre, rev_app_distr.
+    unfold rfind_window in Er. rewrite (find_app_some _ _ _ _ Er). cbn [option_map].
+    rewrite (IH l HI eq_refl). reflexivity.
+Qed.
+
+Definition sound_out (o : outcome) (sp : option (list (N * jev))) : Prop :=
+  match o with
+  | Out (Some ch) => sp = Some ch
+  | Out None => True
+  | Panicked => False
+  end.
+
+Lemma step_sound : forall c past st s e,
+    (1 <= cap c)%nat -> In s (sources c) -> Inv2 c past (bufs st) ->
+    sound_out (snd (add_event c st s e)) (spec_out c past (s, e)) /\
+    Inv2 c (past ++ [(s, e)]) (bufs (fst (add_event c st s e))).
+Proof.
+  intros c past st s e Hcap Hin HI.
+  unfold add_event, spec_out, key_of. cbn [fst snd].
+  destruct (assoc s (join_keys c)) as [kf|] eqn:Ekf.
+  2:{ cbn [fst snd sound_out]. split; [exact I|].
+      intros s' k' evs Hg. rewrite arrivals_app, arrivals_nokey, app_nil_r by (unfold key_of; cbn; rewrite Ekf; reflexivity).
+      apply HI. exact Hg. }
+  destruct (assoc kf (jfields e)) as [key|] eqn:Ekey.
+  2:{ cbn [fst snd sound_out]. split; [exact I|].
+      intros s' k' evs Hg. rewrite arrivals_app, arrivals_nokey, app_nil_r by (unfold key_of; cbn; rewrite Ekf; exact Ekey).
+      apply HI. exact Hg. }
+  rewrite (existsb_eqb_In s (sources c) Hin).
+  pose proof (Inv2_cleanup c past st (jts e) HI) as HI1.
+  set (st1 := cleanup_expired c st (jts e)) in *.
+  destruct (cap_evict_suffix c (match buf_get (s, key) (bufs st1) with Some l => l | None => [] end) Hcap) as [evs' [d [Hev Hd]]].
+  rewrite Hev. cbn [fst snd bufs].
+  assert (Hk : key_of c (s, e) = Some key) by (unfold key_of; cbn; rewrite Ekf; exact Ekey).
+  pose proof (Inv2_push c past (bufs st1) s e key evs' Hk (ex_intro _ d Hd) HI1) as HI2.
+  split; [| exact HI2].
+  unfold try_correlate. cbn [bufs].
+  destruct (correlate_sources c (buf_set (s, key) (evs' ++ [e]) (bufs st1)) key (jts e) (sources c)) as [ch|] eqn:Ec;
+    cbn [sound_out]; [| exact I].
+  apply (correlate_sound c (past ++ [(s, e)]) (jts e) _ key (sources c) ch HI2 Ec).
+Qed.
+
+Lemma run_from_sound : forall c h past st,
+    (1 <= cap c)%nat ->
+    Forall (fun a : arrival => In (fst a) (sources c)) h ->
+    Inv2 c past (bufs st) ->
+    Forall2 sound_out (map fst (run_from c st h)) (spec_from c past h).
+Proof.
+  intros c h. induction h as [|[s e] h IH]; intros past st Hcap Hsrc HI; [constructor|].
+  cbn [run_from spec_from].
+  inv Hsrc. cbn [fst] in H1.
+  destruct (step_sound c past st s e Hcap H1 HI) as [Hout HI'].
+  destruct (add_event c st s e) as [st' o]. cbn [fst snd] in *.
+  destruct o as [o|]; [| destruct Hout].
+  cbn [map fst]. constructor; [exact Hout|].
+  apply IH; assumption.
+Qed.
+
+Theorem outputs_sound_any_order : forall c h,
+    (1 <= cap c)%nat ->
+    Forall (fun a : arrival => In (fst a) (sources c)) h ->
+    Forall2 sound_out (outputs c h) (spec_run c h).
+Proof.
+  intros c h Hcap Hsrc. unfold outputs, run, spec_run.
+  apply run_from_sound; auto. intros s k evs Hg. discriminate.
+Qed.
